@@ -8,15 +8,24 @@
      send        a worker computes `operation(&mut clone, &work)` and sends (index, work, result)
                  on the mpsc channel (one atomic step: the computation is thread-local)
      die         `operation` panics on the query ([panics q = true]): the worker thread ends, its
-                 item is gone (nothing is sent; the main thread keeps its own Sender, so recv()
-                 never reports a closed channel)
+                 item is gone (nothing is sent); unwinding drops the worker's Sender
      recv        the main thread takes the head of the channel and pushes it on `results`
                  (only while its `for _ in 0..work.len()` loop has iterations left)
+     closed      recv() = Err: the channel is empty and no Sender is left, i.e. every worker has
+                 left its loop or died, and the main thread has dropped its own Sender
+                 (`drop(results_tx)` after spawning the workers, repair F10): the main thread
+                 panics with "All workers died unexpectedly."  Only with [drop_tx = true]; in the
+                 unrepaired code (v0, [drop_tx = false]) the main thread keeps its Sender, recv()
+                 never reports a closed channel and the action does not exist
      write       after the loop: results.sort_unstable(); one line per result is written
-     join        handle.join() of every worker
+     join        handle.join().unwrap() of every worker, all of which left their loop normally
+     join-dead   handle.join().unwrap() panics on the first worker that died (the handles before
+                 it have been joined)
    Not modelled: the OS scheduler (every interleaving of the atomic actions is a run of the system,
    which is what the theorems quantify over), thread creation (all workers exist from the start, a
    superset of the real interleavings), I/O errors of the writer.
+   After a panic of the main thread nothing of interest happens any more (in the CLI the process
+   exits; the model lets workers that are still running go on, which no theorem looks at).
    The answer of a worker clone is the Section variable [answer] (a function of the query alone:
    history independence of clones is property C16).  The result type T : ToString + Ord of the Rust
    is the Section variable R with [rshow] and an ARBITRARY comparison [rcmp]. *)
@@ -165,6 +174,9 @@ Section MultiQ.
   Variable panics : mq_query -> bool.      (* operation(..) panics on this query *)
   Variable rcmp : R -> R -> comparison.    (* <T as Ord>::cmp; nothing is assumed about it *)
   Variable rshow : R -> string.            (* T::to_string *)
+  (* true: the main thread drops its own Sender once the workers are spawned (the code after repair
+     F10-multiquery-drop-sender); false: it keeps it until the function returns (v0, finding K13) *)
+  Variable drop_tx : bool.
 
   Notation res := (nat * list Z * R)%type.
 
@@ -223,12 +235,16 @@ Section MultiQ.
   Inductive mq_wst :=
   | WIdle                                   (* at the head of `while let Some(..) = pull_work()` *)
   | WBusy (i : nat) (q : mq_query)          (* holds (index, work), result not yet sent *)
-  | WExited.                                (* left the loop *)
+  | WExited                                 (* left the loop; its Sender is dropped *)
+  | WDied (i : nat) (q : mq_query).         (* `operation` panicked on (i, q): the thread is gone, its
+                                               Sender is dropped, nothing was sent for (i, q) *)
 
   Inductive mq_pc :=
   | PCollect (remaining : nat)              (* iterations of `for _ in 0..work.len()` left *)
   | PWritten (out : string)                 (* sorted and written; joining *)
-  | PJoined (out : string).                 (* returned Ok(()) *)
+  | PJoined (out : string)                  (* returned Ok(()) *)
+  | PPanicked (written : option string).    (* the main thread panicked: in the recv loop (nothing
+                                               written) or in join().unwrap() after writing *)
 
   Record mq_state := MQState {
     mq_queue : list mq_item;
@@ -245,7 +261,9 @@ Section MultiQ.
   | ERecv (i : nat)
   | EDie (w i : nat)
   | EWrite
-  | EJoin.
+  | EJoin
+  | EClosed                                 (* recv() = Err -> panic!("All workers died unexpectedly.") *)
+  | EJoinDead (w : nat).                    (* handle.join().unwrap() on the dead worker w *)
 
   Definition mq_init (W : list mq_item) (j : nat) : mq_state :=
     MQState W (repeat WIdle j) [] [] (PCollect (List.length W)).
@@ -259,6 +277,9 @@ Section MultiQ.
 
   Definition mq_is_exited (x : mq_wst) : bool :=
     match x with WExited => true | _ => false end.
+  (* the thread has ended (normally or by a panic): its clone of the Sender is dropped *)
+  Definition mq_is_done (x : mq_wst) : bool :=
+    match x with WExited | WDied _ _ => true | _ => false end.
 
   Inductive mq_step : mq_state -> mq_event -> mq_state -> Prop :=
   | step_pull : forall Q ws ch rs pc w i q,
@@ -278,7 +299,7 @@ Section MultiQ.
       nth_error ws w = Some (WBusy i q) ->
       panics q = true ->
       mq_step (MQState Q ws ch rs pc) (EDie w i)
-              (MQState Q (mq_upd ws w WExited) ch rs pc)
+              (MQState Q (mq_upd ws w (WDied i q)) ch rs pc)
   | step_recv : forall Q ws ch rs k i q r,
       mq_step (MQState Q ws ((i, q, r) :: ch) rs (PCollect (S k))) (ERecv i)
               (MQState Q ws ch (rs ++ [(i, q, r)]) (PCollect k))
@@ -288,7 +309,17 @@ Section MultiQ.
   | step_join : forall Q ws ch rs out,
       forallb mq_is_exited ws = true ->
       mq_step (MQState Q ws ch rs (PWritten out)) EJoin
-              (MQState Q ws ch rs (PJoined out)).
+              (MQState Q ws ch rs (PJoined out))
+  | step_closed : forall Q ws rs k,
+      drop_tx = true ->
+      forallb mq_is_done ws = true ->
+      mq_step (MQState Q ws [] rs (PCollect (S k))) EClosed
+              (MQState Q ws [] rs (PPanicked None))
+  | step_join_dead : forall Q ws ch rs out w i q,
+      nth_error ws w = Some (WDied i q) ->
+      forallb mq_is_exited (firstn w ws) = true ->
+      mq_step (MQState Q ws ch rs (PWritten out)) (EJoinDead w)
+              (MQState Q ws ch rs (PPanicked (Some out))).
 
   (* executable version: Some s' iff the event is enabled in s and leads to s' *)
   Definition mq_valid_event (s : mq_state) (e : mq_event) : option mq_state :=
@@ -316,7 +347,7 @@ Section MultiQ.
     | EDie w i =>
       match nth_error ws w with
       | Some (WBusy i' q) =>
-        if Nat.eqb i i' && panics q then Some (MQState Q (mq_upd ws w WExited) ch rs pc) else None
+        if Nat.eqb i i' && panics q then Some (MQState Q (mq_upd ws w (WDied i' q)) ch rs pc) else None
       | _ => None
       end
     | ERecv i =>
@@ -334,6 +365,18 @@ Section MultiQ.
       match pc with
       | PWritten out => if forallb mq_is_exited ws then Some (MQState Q ws ch rs (PJoined out)) else None
       | _ => None
+      end
+    | EClosed =>
+      match ch, pc with
+      | [], PCollect (S _) =>
+        if drop_tx && forallb mq_is_done ws then Some (MQState Q ws [] rs (PPanicked None)) else None
+      | _, _ => None
+      end
+    | EJoinDead w =>
+      match pc, nth_error ws w with
+      | PWritten out, Some (WDied _ _) =>
+        if forallb mq_is_exited (firstn w ws) then Some (MQState Q ws ch rs (PPanicked (Some out))) else None
+      | _, _ => None
       end
     end.
 
@@ -353,11 +396,20 @@ Section MultiQ.
     | PCollect _ => None
     | PWritten out => Some out
     | PJoined out => Some out
+    | PPanicked written => written
+    end.
+
+  (* the main thread has returned or panicked *)
+  Definition mq_final (s : mq_state) : bool :=
+    match mq_main s with
+    | PJoined _ | PPanicked _ => true
+    | _ => false
     end.
 
   (* the canonical completion used by the correspondence after a logged prefix: every worker that
-     is still in its loop finishes (send if busy, then sees the empty queue), the main thread drains
-     the channel, writes and joins.  [fuel] bounds the number of events. *)
+     is still in its loop finishes (send or die if busy, then sees the empty queue), the main thread
+     drains the channel, then writes and joins, or panics when the channel is closed (a join that
+     meets a dead worker panics, too).  [fuel] bounds the number of events. *)
   Fixpoint mq_find_worker (p : mq_wst -> bool) (ws : list mq_wst) (k : nat) : option nat :=
     match ws with
     | [] => None
@@ -365,11 +417,13 @@ Section MultiQ.
     end.
   Definition mq_is_busy (x : mq_wst) : bool := match x with WBusy _ _ => true | _ => false end.
   Definition mq_is_idle (x : mq_wst) : bool := match x with WIdle => true | _ => false end.
+  Definition mq_is_died (x : mq_wst) : bool := match x with WDied _ _ => true | _ => false end.
   Definition mq_next_event (s : mq_state) : option mq_event :=
     match mq_main s, mq_chan s with
     | PCollect (S _), (i, _, _) :: _ => Some (ERecv i)
     | PCollect O, _ => Some EWrite
     | PJoined _, _ => None
+    | PPanicked _, _ => None
     | _, _ =>
       match mq_find_worker mq_is_busy (mq_workers s) 0 with
       | Some w => match nth_error (mq_workers s) w with
@@ -380,7 +434,15 @@ Section MultiQ.
         match mq_find_worker mq_is_idle (mq_workers s) 0, mq_queue s with
         | Some w, (i, _) :: _ => Some (EPull w i)
         | Some w, [] => Some (EPullNone w)
-        | None, _ => match mq_main s with PWritten _ => Some EJoin | _ => None end
+        | None, _ =>
+          match mq_main s with
+          | PWritten _ => match mq_find_worker mq_is_died (mq_workers s) 0 with
+                          | Some w => Some (EJoinDead w)
+                          | None => Some EJoin
+                          end
+          | PCollect (S _) => if drop_tx then Some EClosed else None
+          | _ => None
+          end
         end
       end
     end.
@@ -396,9 +458,9 @@ Section MultiQ.
   (* bound on the number of events of any run from s (every step lowers it, all but `die` by
      exactly one) *)
   Definition mq_wweight (x : mq_wst) : nat :=
-    match x with WIdle => 1 | WBusy _ _ => 3 | WExited => 0 end.
+    match x with WIdle => 1 | WBusy _ _ => 3 | WExited => 0 | WDied _ _ => 0 end.
   Definition mq_pcweight (p : mq_pc) : nat :=
-    match p with PCollect _ => 2 | PWritten _ => 1 | PJoined _ => 0 end.
+    match p with PCollect _ => 2 | PWritten _ => 1 | PJoined _ => 0 | PPanicked _ => 0 end.
   Definition mq_measure (s : mq_state) : nat :=
     3 * List.length (mq_queue s) + list_sum (map mq_wweight (mq_workers s))
     + List.length (mq_chan s) + mq_pcweight (mq_main s).
@@ -423,4 +485,5 @@ Arguments mq_chan {R} m.
 Arguments mq_results {R} m.
 Arguments mq_main {R} m.
 Arguments mq_output {R} s.
+Arguments mq_final {R} s.
 Arguments mq_measure {R} s.
